@@ -26,11 +26,7 @@ type plain struct {
 	Meta       blob.Ref // single-entry meta blob written by its receive
 	exLo, exHi int      // content range excluded from the leak windows
 	crafted    bool
-	// extra: a further meta-shaped user blob (forged-size variants).  Its own ciphertext and meta blob take
-	// part only in the targeted crafted substitutions, not in the flip/truncate/extend/all-pairs enumeration
-	// (they have the same shape as the first crafted blob's), and it is verified after crafted swaps only.
-	extra  bool
-	forged string // what the crafted line claims (evidence)
+	forged     string // what the crafted line claims (evidence)
 }
 
 func mkPlain(hash, kind string, data []byte) plain {
@@ -321,21 +317,13 @@ func head(b []byte) string {
 	return string(b)
 }
 
-// everyIdx: every plaintext; the extra crafted user blobs only after a crafted substitution.
-func (t *tstore) everyIdx(m *mutant) []int {
-	idx := make([]int, 0, len(t.plains))
-	for i := range t.plains {
-		if t.plains[i].extra && m.Class != "swap-crafted" {
-			continue
-		}
-		idx = append(idx, i)
-	}
-	return idx
-}
-
 func (t *tstore) checkIdx(m *mutant) []int {
 	if t.checkAll {
-		return t.everyIdx(m)
+		idx := make([]int, len(t.plains))
+		for i := range idx {
+			idx[i] = i
+		}
+		return idx
 	}
 	set := map[int]bool{}
 	if m.affected >= 0 {
@@ -394,7 +382,7 @@ func (t *tstore) apply(m *mutant, orig []byte) {
 	} else if err != nil {
 		t.r.Note("tamper_outcomes", m.Target+"/"+cls+"/creation-refused")
 	} else {
-		t.verify(s, m, t.everyIdx(m))
+		t.verify(s, m, allIdx(len(t.plains)))
 		t.r.Note("tamper_outcomes", m.Target+"/"+cls+"/creation-succeeded")
 	}
 	t.in.meta.clearOver(m.ref)
@@ -527,30 +515,8 @@ func (t *tstore) run() {
 			}
 		}
 	}
-	dataAll, metaAll := t.lowerOrder()
-	// the blobs of the extra crafted plaintexts (last in both lists) stay out of the general enumeration
-	extraRef := map[blob.Ref]bool{}
-	for _, p := range t.plains {
-		if p.extra {
-			extraRef[p.Enc], extraRef[p.Meta] = true, true
-		}
-	}
-	var dataRefs, metaRefs []blob.Ref
-	for _, ref := range dataAll {
-		if !extraRef[ref] {
-			dataRefs = append(dataRefs, ref)
-		}
-	}
-	for _, ref := range metaAll {
-		if !extraRef[ref] {
-			metaRefs = append(metaRefs, ref)
-		}
-	}
-	for _, l := range []*lowStore{in.blobs, in.meta} {
-		l.mu.Lock()
-		l.readonly = true
-		l.mu.Unlock()
-	}
+	dataRefs, metaRefs := t.lowerOrder()
+	t.setReadonly(true)
 	// baseline: untampered, a start with a lost index recovers everything
 	base := &mutant{ID: t.id + "/baseline;", Class: "none", Target: "meta", affected: -1}
 	s, _, _, err := in.create(nil)
@@ -615,9 +581,25 @@ func (t *tstore) run() {
 	for _, p := range pairs(len(metaRefs), len(dataRefs), false) { // meta <- data
 		t.swap(in.meta, "meta", p.a, metaRefs[p.a], in.blobs, "data", p.b, dataRefs[p.b], -1, craftedEnc[dataRefs[p.b]])
 	}
-	// the targeted form of the crafted substitution: the meta-shaped user blob replaces the
-	// victim's own meta blob (always run, also when the pair sampling above skipped it)
-	for i, p := range t.plains {
+	t.craftedTargeted(dataRefs, metaRefs, 0)
+	t.r.Count("tamper_cases", t.cases)
+}
+
+func (t *tstore) setReadonly(ro bool) {
+	for _, l := range []*lowStore{t.in.blobs, t.in.meta} {
+		l.mu.Lock()
+		l.readonly = ro
+		l.mu.Unlock()
+	}
+}
+
+// craftedTargeted is the targeted form of the crafted substitution: each meta-shaped user blob (those
+// at plaintext index >= from) replaces the own meta blob of the victim it names (always run, also when
+// the pair sampling skipped it).
+func (t *tstore) craftedTargeted(dataRefs, metaRefs []blob.Ref, from int) {
+	in := t.in
+	for i := from; i < len(t.plains); i++ {
+		p := t.plains[i]
 		if !p.crafted {
 			continue
 		}
@@ -626,11 +608,10 @@ func (t *tstore) run() {
 				if p.forged != "" {
 					t.r.Note("crafted_meta_lines", p.forged)
 				}
-				t.swap(in.meta, "meta", idxOf(metaAll, v.Meta), v.Meta, in.blobs, "data", idxOf(dataAll, t.plains[i].Enc), t.plains[i].Enc, -1, true)
+				t.swap(in.meta, "meta", idxOf(metaRefs, v.Meta), v.Meta, in.blobs, "data", idxOf(dataRefs, p.Enc), p.Enc, -1, true)
 			}
 		}
 	}
-	t.r.Count("tamper_cases", t.cases)
 }
 
 // verifyStrict: on untampered stores every plaintext must be fetched intact and stat'ed with its size.
@@ -682,33 +663,51 @@ func tamperA(r *ev.Run, root string, n int, large bool) {
 		vi, di = 0, 1
 	}
 	n0 := len(t.plains)
-	add := func(p plain, forged string, extra bool) {
-		p.forged, p.extra = forged, extra
+	add := func(p plain, forged string) {
+		p.forged = forged
 		t.plains = append(t.plains, p)
 	}
-	add(craftedPlain(t.plains[vi], t.plains[di], 0), "true-size/other-ciphertext", false)
-	absent := sto.RefOf("sha224", randBytes(rng, 32)) // names no stored ciphertext
+	add(craftedPlain(t.plains[vi], t.plains[di], 0), "true-size/other-ciphertext")
 	if !large {
 		// a second one that names the victim's own ciphertext but a wrong size
-		add(craftedPlain(t.plains[7], t.plains[7], 1), "size+1/own-ciphertext", false)
-		// further forged lines: the size field is what a fetch learns FIRST about a blob (before any
-		// ciphertext is read), so its edge values get their own substitutions: 0, and the true size
-		add(craftedLine(t.plains[7], t.plains[7].Enc, 0), "size-0/own-ciphertext", true)
-		add(craftedLine(t.plains[5], t.plains[6].Enc, 0), "size-0/other-ciphertext", true)
-		add(craftedLine(t.plains[8], absent, 0), "size-0/absent-ciphertext", true)
-		add(craftedLine(t.plains[6], t.plains[6].Enc, len(t.plains[6].Data)), "true-size/own-ciphertext", true)
-		add(craftedLine(t.plains[1], absent, len(t.plains[1].Data)), "true-size/absent-ciphertext", true)
-	} else {
-		add(craftedLine(t.plains[3], t.plains[3].Enc, 0), "size-0/own-ciphertext", true)
-		add(craftedLine(t.plains[0], t.plains[1].Enc, 0), "size-0/other-ciphertext", true)
+		add(craftedPlain(t.plains[7], t.plains[7], 1), "size+1/own-ciphertext")
 	}
 	if !t.receiveAll(n0) {
 		return
 	}
 	in.leakCheckAll(t.sc, t.plains, "after all receives")
 	r.Count("bytes_scanned", t.sc.takeScanned())
-	r.Count("plaintext_blobs", len(t.plains))
 	t.run()
+	if t.hung {
+		return
+	}
+	// Second phase: further forged lines.  The size field is what a fetch learns FIRST about a blob (before
+	// any ciphertext is read), so its edge values get their own substitutions: 0 and the true size, naming
+	// the victim's own, another or no stored ciphertext.  These user blobs are received only now (so that the
+	// enumeration above is not enlarged by their ciphertext and meta blobs, which have the shape of the first
+	// crafted blob's) and take part in the targeted substitution only; every plaintext is verified after each.
+	t.setReadonly(false)
+	n1, cases1 := len(t.plains), t.cases
+	absent := sto.RefOf("sha224", randBytes(rng, 32)) // names no stored ciphertext
+	if !large {
+		add(craftedLine(t.plains[7], t.plains[7].Enc, 0), "size-0/own-ciphertext")
+		add(craftedLine(t.plains[5], t.plains[6].Enc, 0), "size-0/other-ciphertext")
+		add(craftedLine(t.plains[8], absent, 0), "size-0/absent-ciphertext")
+		add(craftedLine(t.plains[6], t.plains[6].Enc, len(t.plains[6].Data)), "true-size/own-ciphertext")
+		add(craftedLine(t.plains[1], absent, len(t.plains[1].Data)), "true-size/absent-ciphertext")
+	} else {
+		add(craftedLine(t.plains[3], t.plains[3].Enc, 0), "size-0/own-ciphertext")
+		add(craftedLine(t.plains[0], t.plains[1].Enc, 0), "size-0/other-ciphertext")
+	}
+	if !t.receiveAll(n1) {
+		return
+	}
+	in.leakCheckAll(t.sc, t.plains, "after the receives of the second phase")
+	t.setReadonly(true)
+	dataRefs, metaRefs := t.lowerOrder()
+	t.craftedTargeted(dataRefs, metaRefs, n1)
+	r.Count("tamper_cases", t.cases-cases1)
+	r.Count("plaintext_blobs", len(t.plains))
 	if t.hung {
 		return
 	}
